@@ -458,7 +458,10 @@ RD(ctx, T, cons, d) ==
                   \* an item whose key AND value are both bad must report something under its
                   \* key (rule "ANY": at least one error at or below that location); which of
                   \* the two sets of errors is left open (sandwich, DESIGN A.3)
-                  sub  == UNION {IF ~kr[i].ok /\ ~vr[i].ok THEN {<< <<d.o[i][1]>>, "ANY" >>}
+                  \* (the same when the other half is a corner the reference leaves unspecified: the code may
+                  \* reject it first and never look at the half known to be bad)
+                  sub  == UNION {IF ~kr[i].ok /\ (~vr[i].ok \/ IsUnspec(vr[i])) THEN {<< <<d.o[i][1]>>, "ANY" >>}
+                                 ELSE IF ~vr[i].ok /\ IsUnspec(kr[i]) THEN {<< <<d.o[i][1]>>, "ANY" >>}
                                  ELSE IF ~kr[i].ok THEN Under(d.o[i][1], kr[i].e)
                                  ELSE IF ~vr[i].ok THEN Under(d.o[i][1], vr[i].e) ELSE {} : i \in DOMAIN d.o}
                   subx == UNION {(IF ~kr[i].ok THEN Under(d.o[i][1], kr[i].e) ELSE {})
